@@ -414,11 +414,56 @@ def regenerate_blocking():
     return errors, changed
 
 
+# ======================================================================================= T-tab
+def generate_tables():
+    """small literal facts: which constructor arguments restart() carries over"""
+    sys.path.insert(0, str(REPO))
+    out = ['/-! GENERATED by harness/translate.py (T-tab) from /repo - do not edit. -/', 'namespace PwVerif.Gen', '']
+    errors = []
+
+    def keys_of(mod, cls):
+        c = getattr(importlib.import_module(mod), cls)
+        t = Translator(c)
+        node, _ = t.func_ast('_get_restart_args')
+        keys = []
+        for n in ast.walk(node):
+            if isinstance(n, ast.Dict):
+                for k, v in zip(n.keys, n.values):
+                    if isinstance(k, ast.Constant):
+                        keys.append((k.value, ast.unparse(v)))
+        positional = [ast.unparse(e) for n in ast.walk(node) if isinstance(n, ast.Return) and isinstance(n.value, ast.Tuple) and isinstance(n.value.elts[0], ast.List) for e in n.value.elts[0].elts]
+        return keys, positional
+    try:
+        base, pos = keys_of('pyworkers.worker', 'Worker')
+        remote, _ = keys_of('pyworkers.remote', 'RemoteWorker')
+        def lit(l):
+            return '[' + ', '.join(f'("{k}", "{v}")' for k, v in l) + ']'
+        out.append(f'/-- `Worker._get_restart_args`: positional arguments -/\ndef restartPositional : List String := [{", ".join(chr(34) + p + chr(34) for p in pos)}]\n')
+        out.append(f'/-- `Worker._get_restart_args`: keyword -> attribute it is taken from -/\ndef restartKeys : List (String × String) := {lit(base)}\n')
+        out.append(f'/-- what `RemoteWorker._get_restart_args` adds -/\ndef remoteRestartKeys : List (String × String) := {lit(remote)}\n')
+    except Exception as e:
+        errors.append(f'restart args: {type(e).__name__}: {e}')
+        out.append('def restartPositional : List String := []\ndef restartKeys : List (String × String) := []\ndef remoteRestartKeys : List (String × String) := []\n')
+    out.append('end PwVerif.Gen')
+    return '\n'.join(out) + '\n', errors
+
+
+def regenerate_tables():
+    text, errors = generate_tables()
+    changed = write_if_changed(LEAN / 'PwVerif' / 'Gen' / 'Tables.lean', text)
+    return errors, changed
+
+
 if __name__ == '__main__':
     errs, meta, changed = regenerate()
     print('RunLoops.lean', 'rewritten' if changed else 'unchanged')
     errs2, changed2 = regenerate_blocking()
     print('Blocking.lean', 'rewritten' if changed2 else 'unchanged')
+    errs3, changed3 = regenerate_tables()
+    print('Tables.lean', 'rewritten' if changed3 else 'unchanged')
+    errs2 = errs2 + errs3
     for e in errs + errs2:
         print('UNTRANSLATABLE', e)
     sys.exit(1 if errs or errs2 else 0)
+
+
